@@ -1065,7 +1065,9 @@ def run_config(tape, ctx):
                         "pyopt": tape.wpick([("", 5), ("1", 2), ("2", 1)], "PYTHONOPTIMIZE"),
                         # ... and so is the date: the same run tomorrow, next month, next year, at another hour
                         "clock": tape.wpick([("", 3), ("86400", 1), ("2764800", 1), ("34304833", 2), ("-40000000", 1)],
-                                            "clock-shift")}
+                                            "clock-shift"),
+                        # ... and who runs it, where: user, home, host name, time zone, terminal width, scratch directory
+                        "who": tape.bool(0.4, "other-user-and-host")}
             confs.append(conf)
             cwd = [build, srcd, other, "/"][conf["cwd"]]
             outdir = os.path.join(tmp, "out%d" % ci)
@@ -1081,6 +1083,12 @@ def run_config(tape, ctx):
                                                  "sim", "fakeclock") + os.pathsep + REPO
                 env["VERIF_FAKE_CLOCK_SHIFT"] = conf["clock"]
             env["PYTHONDONTWRITEBYTECODE"] = "1"
+            if conf.get("who"):
+                scratch_dir = os.path.join(tmp, "scratch tmp %d" % ci)
+                os.makedirs(scratch_dir, exist_ok=True)
+                env.update({"USER": "buildbot", "LOGNAME": "buildbot", "USERNAME": "buildbot", "HOME": scratch_dir,
+                            "HOSTNAME": "ci-worker-17", "TZ": "Pacific/Kiritimati", "COLUMNS": "43", "LINES": "11",
+                            "TMPDIR": scratch_dir, "TERM": "dumb", "NO_COLOR": "1"})
 
             def rel(p, _cwd=cwd):
                 return os.path.relpath(p, _cwd) if _cwd != "/" else p
